@@ -13,198 +13,198 @@ Fixpoint strs_eqb (a b : list string) : bool :=
   | _, _ => false
   end.
 
-Definition pin_sender_SendPackets : list string := [
-  "assign done := make(chan interface{})";
-  "assign errc := make(chan error, 100)";
-  "go{";
-  " defer{";
-  "  do close(done)";
-  "  do close(errc)";
-  " }";
-  " for {";
-  "  select{";
-  "   case <-ctx.Done():";
-  "    return";
-  "   case pkt, ok := <-in:";
-  "    if !ok{";
-  "     return";
-  "    }";
-  "    if pkt.Err != nil{";
-  "     send errc <- pkt.Err";
-  "     continue";
-  "    }";
-  "    assign err := s.w.WritePacketData(pkt.Buf.Bytes())";
-  "    if err != nil{";
-  "     send errc <- err";
-  "    }";
-  "    assign err := FreeSerializeBuffer(pkt.Buf)";
-  "    if err != nil{";
-  "     send errc <- err";
-  "    }";
-  "  }";
-  " }";
-  "}";
-  "return done, errc"
-].
-
 Definition pin_FreeSerializeBuffer : list string := [
-  "assign err = buf.Clear()";
-  "if err != nil{";
+  "assign v1 = v0.Clear()";
+  "if v1 != nil{";
   " return";
   "}";
-  "do bufferPool.Put(buf)";
+  "do bufferPool.Put(v0)";
   "return"
 ].
 
-Definition pin_packetGenerator_Packets : list string := [
-  "assign out := make(chan *packet.BufferData, 100)";
+Definition pin_MergeBufferDataChan : list string := [
+  "do v2.Add(len(v1))";
+  "assign v3 := make(chan *packet.BufferData, len(v1)*100)";
+  "assign v4 := func(v7 <-chan *packet.BufferData) {...}";
+  " func{";
+  "  defer v2.Done()";
+  "  for {";
+  "   select{";
+  "    case <-v0.Done():";
+  "     return";
+  "    case v5, v6 := <-v7:";
+  "     if !v6{";
+  "      return";
+  "     }";
+  "     select{";
+  "      case <-v0.Done():";
+  "       return";
+  "      case v3 <- v5:";
+  "     }";
+  "   }";
+  "  }";
+  " }";
+  "range v1{";
+  " go v4(v7)";
+  "}";
   "go{";
-  " defer close(out)";
+  " do v2.Wait()";
+  " do close(v3)";
+  "}";
+  "return v3"
+].
+
+Definition pin_PacketEngine_Start : list string := [
+  "assign v3 := v0.src.Packets(v1, v2)";
+  "assign v4, v5 := v0.snd.SendPackets(v1, v3)";
+  "assign v6 := v0.rcv.ReceivePackets(v1)";
+  "return v4, mergeErrChan(v1, v5, v6)"
+].
+
+Definition pin_SetupPacketEngine : list string := [
+  "assign v2 := packet.NewSender(v0)";
+  "assign v3 := packet.NewReceiver(v0, v1)";
+  "assign v4 := NewPacketEngine(v1, v2, v3)";
+  "return NewEngineResulter(v4, v1)"
+].
+
+Definition pin_mergeErrChan : list string := [
+  "do v2.Add(len(v1))";
+  "assign v3 := make(chan error, 100)";
+  "assign v4 := func(v7 <-chan error) {...}";
+  " func{";
+  "  defer v2.Done()";
+  "  for {";
+  "   select{";
+  "    case <-v0.Done():";
+  "     return";
+  "    case v5, v6 := <-v7:";
+  "     if !v6{";
+  "      return";
+  "     }";
+  "     do writeError(v0, v3, v5)";
+  "   }";
+  "  }";
+  " }";
+  "range v1{";
+  " go v4(v7)";
+  "}";
+  "go{";
+  " do v2.Wait()";
+  " do close(v3)";
+  "}";
+  "return v3"
+].
+
+Definition pin_packetGenerator_Packets : list string := [
+  "assign v3 := make(chan *packet.BufferData, 100)";
+  "go{";
+  " defer close(v3)";
   " for {";
   "  select{";
-  "   case <-ctx.Done():";
+  "   case <-v1.Done():";
   "    return";
-  "   case r, ok := <-in:";
-  "    if !ok{";
+  "   case v4, v5 := <-v2:";
+  "    if !v5{";
   "     return";
   "    }";
-  "    if r.Err != nil{";
-  "     do writeBufToChan(ctx, out, &packet.BufferData{Err: r.Err})";
+  "    if v4.Err != nil{";
+  "     do writeBufToChan(v1, v3, &packet.BufferData{Err: v4.Err})";
   "     continue";
   "    }";
-  "    assign buf := packet.NewSerializeBuffer()";
-  "    assign err := g.filler.Fill(buf, r)";
-  "    if err != nil{";
-  "     do writeBufToChan(ctx, out, &packet.BufferData{Err: err})";
+  "    assign v6 := packet.NewSerializeBuffer()";
+  "    assign v7 := v0.filler.Fill(v6, v4)";
+  "    if v7 != nil{";
+  "     do writeBufToChan(v1, v3, &packet.BufferData{Err: v7})";
   "     continue";
   "    }";
-  "    do writeBufToChan(ctx, out, &packet.BufferData{Buf: buf})";
+  "    do writeBufToChan(v1, v3, &packet.BufferData{Buf: v6})";
   "  }";
   " }";
   "}";
-  "return out"
+  "return v3"
+].
+
+Definition pin_packetMultiGenerator_Packets : list string := [
+  "assign v3 := make([]<-chan *packet.BufferData, v0.numWorkers)";
+  "for v4 < v0.numWorkers{";
+  " assign v3[v4] = v0.gen.Packets(v1, v2)";
+  "}";
+  "return MergeBufferDataChan(v1, v3...)"
+].
+
+Definition pin_packetSource_Packets : list string := [
+  "assign v3, v4 := v0.reqgen.GenerateRequests(v1, v2)";
+  "if v4 != nil{";
+  " assign v5 := make(chan *packet.BufferData, 1)";
+  " send v5 <- &packet.BufferData{Err: v4}";
+  " do close(v5)";
+  " return v5";
+  "}";
+  "return v0.pktgen.Packets(v1, v3)"
+].
+
+Definition pin_sender_SendPackets : list string := [
+  "assign v3 := make(chan interface{})";
+  "assign v4 := make(chan error, 100)";
+  "go{";
+  " defer{";
+  "  do close(v3)";
+  "  do close(v4)";
+  " }";
+  " for {";
+  "  select{";
+  "   case <-v1.Done():";
+  "    return";
+  "   case v5, v6 := <-v2:";
+  "    if !v6{";
+  "     return";
+  "    }";
+  "    if v5.Err != nil{";
+  "     send v4 <- v5.Err";
+  "     continue";
+  "    }";
+  "    assign v7 := v0.w.WritePacketData(v5.Buf.Bytes())";
+  "    if v7 != nil{";
+  "     send v4 <- v7";
+  "    }";
+  "    assign v7 := FreeSerializeBuffer(v5.Buf)";
+  "    if v7 != nil{";
+  "     send v4 <- v7";
+  "    }";
+  "  }";
+  " }";
+  "}";
+  "return v3, v4"
 ].
 
 Definition pin_writeBufToChan : list string := [
   "select{";
-  " case <-ctx.Done():";
+  " case <-v0.Done():";
   "  return";
-  " case out <- buf:";
+  " case v1 <- v2:";
   "}"
-].
-
-Definition pin_packetMultiGenerator_Packets : list string := [
-  "assign workers := make([]<-chan *packet.BufferData, g.numWorkers)";
-  "for i < g.numWorkers{";
-  " assign workers[i] = g.gen.Packets(ctx, in)";
-  "}";
-  "return MergeBufferDataChan(ctx, workers...)"
-].
-
-Definition pin_MergeBufferDataChan : list string := [
-  "do wg.Add(len(channels))";
-  "assign out := make(chan *packet.BufferData, len(channels)*100)";
-  "assign multiplex := func(c <-chan *packet.BufferData) {...}";
-  " func{";
-  "  defer wg.Done()";
-  "  for {";
-  "   select{";
-  "    case <-ctx.Done():";
-  "     return";
-  "    case e, ok := <-c:";
-  "     if !ok{";
-  "      return";
-  "     }";
-  "     select{";
-  "      case <-ctx.Done():";
-  "       return";
-  "      case out <- e:";
-  "     }";
-  "   }";
-  "  }";
-  " }";
-  "range channels{";
-  " go multiplex(c)";
-  "}";
-  "go{";
-  " do wg.Wait()";
-  " do close(out)";
-  "}";
-  "return out"
-].
-
-Definition pin_mergeErrChan : list string := [
-  "do wg.Add(len(channels))";
-  "assign out := make(chan error, 100)";
-  "assign multiplex := func(c <-chan error) {...}";
-  " func{";
-  "  defer wg.Done()";
-  "  for {";
-  "   select{";
-  "    case <-ctx.Done():";
-  "     return";
-  "    case e, ok := <-c:";
-  "     if !ok{";
-  "      return";
-  "     }";
-  "     do writeError(ctx, out, e)";
-  "   }";
-  "  }";
-  " }";
-  "range channels{";
-  " go multiplex(c)";
-  "}";
-  "go{";
-  " do wg.Wait()";
-  " do close(out)";
-  "}";
-  "return out"
-].
-
-Definition pin_PacketEngine_Start : list string := [
-  "assign packets := e.src.Packets(ctx, r)";
-  "assign done, errc1 := e.snd.SendPackets(ctx, packets)";
-  "assign errc2 := e.rcv.ReceivePackets(ctx)";
-  "return done, mergeErrChan(ctx, errc1, errc2)"
-].
-
-Definition pin_packetSource_Packets : list string := [
-  "assign requests, err := s.reqgen.GenerateRequests(ctx, r)";
-  "if err != nil{";
-  " assign out := make(chan *packet.BufferData, 1)";
-  " send out <- &packet.BufferData{Err: err}";
-  " do close(out)";
-  " return out";
-  "}";
-  "return s.pktgen.Packets(ctx, requests)"
-].
-
-Definition pin_SetupPacketEngine : list string := [
-  "assign sender := packet.NewSender(rw)";
-  "assign receiver := packet.NewReceiver(rw, m)";
-  "assign engine := NewPacketEngine(m, sender, receiver)";
-  "return NewEngineResulter(engine, m)"
 ].
 
 Definition pin_writeError : list string := [
   "select{";
-  " case <-ctx.Done():";
+  " case <-v0.Done():";
   "  return";
-  " case out <- err:";
+  " case v1 <- v2:";
   "}"
 ].
 
 Definition shape_checks : list (string * bool) := [
-  ("sender_SendPackets", strs_eqb pin_sender_SendPackets skel_sender_SendPackets);
   ("FreeSerializeBuffer", strs_eqb pin_FreeSerializeBuffer skel_FreeSerializeBuffer);
-  ("packetGenerator_Packets", strs_eqb pin_packetGenerator_Packets skel_packetGenerator_Packets);
-  ("writeBufToChan", strs_eqb pin_writeBufToChan skel_writeBufToChan);
-  ("packetMultiGenerator_Packets", strs_eqb pin_packetMultiGenerator_Packets skel_packetMultiGenerator_Packets);
   ("MergeBufferDataChan", strs_eqb pin_MergeBufferDataChan skel_MergeBufferDataChan);
-  ("mergeErrChan", strs_eqb pin_mergeErrChan skel_mergeErrChan);
   ("PacketEngine_Start", strs_eqb pin_PacketEngine_Start skel_PacketEngine_Start);
-  ("packetSource_Packets", strs_eqb pin_packetSource_Packets skel_packetSource_Packets);
   ("SetupPacketEngine", strs_eqb pin_SetupPacketEngine skel_SetupPacketEngine);
+  ("mergeErrChan", strs_eqb pin_mergeErrChan skel_mergeErrChan);
+  ("packetGenerator_Packets", strs_eqb pin_packetGenerator_Packets skel_packetGenerator_Packets);
+  ("packetMultiGenerator_Packets", strs_eqb pin_packetMultiGenerator_Packets skel_packetMultiGenerator_Packets);
+  ("packetSource_Packets", strs_eqb pin_packetSource_Packets skel_packetSource_Packets);
+  ("sender_SendPackets", strs_eqb pin_sender_SendPackets skel_sender_SendPackets);
+  ("writeBufToChan", strs_eqb pin_writeBufToChan skel_writeBufToChan);
   ("writeError", strs_eqb pin_writeError skel_writeError)
 ].
 
